@@ -45,7 +45,7 @@ func genC18(t *rapid.T) c18Case {
 	switch c.Type {
 	case "expavg":
 		c.Window = rapid.IntRange(1, 1000).Draw(t, "window")
-		c.Warmup = rapid.IntRange(0, 20).Draw(t, "warmup")
+		c.Warmup = rapid.IntRange(1, 20).Draw(t, "warmup") // 0 would seed the average with the constant 0: degenerate configuration, excluded (DESIGN 6)
 	case "sema":
 		c.Alpha = genAlpha().Draw(t, "alpha")
 	case "var":
